@@ -144,9 +144,12 @@ fn frag_access(rng: &mut Rng, depth: usize) -> String {
     if depth == 0 || rng.chance(1, 3) {
         return rng.pick(&fields).to_string();
     }
-    match rng.below(3) {
+    match rng.below(5) {
         0 => format!("{}.{}", frag_access(rng, depth - 1), rng.pick(&keys)),
         1 => format!("{}[{}]", frag_access(rng, depth - 1), frag_expr(rng, depth - 1)),
+        // object / array literals (named fields / plain items only) as the head of an access chain
+        2 => format!("({{a: {}, x: {}, k1: {}}})", frag_expr(rng, depth - 1), frag_expr(rng, depth - 1), frag_expr(rng, depth - 1)),
+        3 => format!("[{}, {}, {}]", frag_expr(rng, depth - 1), frag_expr(rng, depth - 1), frag_expr(rng, depth - 1)),
         _ => format!("({} ? {} : {})", frag_expr(rng, depth - 1), frag_access(rng, depth - 1), frag_access(rng, depth - 1)),
     }
 }
